@@ -4,13 +4,13 @@ go 1.20
 
 require (
 	github.com/anishathalye/porcupine v1.3.0
+	github.com/cactus/go-statsd-client/v5 v5.0.0
 	github.com/uber-go/tally/v4 v4.1.17
 	go.uber.org/goleak v1.3.0
 )
 
 require (
 	github.com/beorn7/perks v1.0.1 // indirect
-	github.com/cactus/go-statsd-client/v5 v5.0.0 // indirect
 	github.com/cespare/xxhash/v2 v2.3.0 // indirect
 	github.com/golang/mock v1.6.0 // indirect
 	github.com/golang/protobuf v1.4.3 // indirect
